@@ -467,6 +467,11 @@ func (c *Client) sendAllocateRequest(protocol proto.Protocol) ( //nolint:cyclop
 	if err := lifetime.GetFrom(res); err != nil {
 		return relayed, lifetime, nonce, reservationToken, err
 	}
+	// The allocation is refreshed at half its lifetime: with a lifetime of zero
+	// the refresh timer would fire, and send a Refresh, in a tight loop.
+	if lifetime.Duration <= 0 {
+		return relayed, lifetime, nonce, reservationToken, errZeroAllocationLifetime
+	}
 
 	// Getting reservation-token from response
 	if c.evenPort {
